@@ -275,6 +275,15 @@ def obligations(tier):
         obs.append(Ob('reader-names', ob_reader_names, dict(STEP=step, N=3 if quick else 5),
                       desc='encoding name with symbolic spelling (value alphabet, not int-like) declared on a '
                            'container is pushed verbatim', bounds={'name_len': [1, 3 if quick else 5]}))
+    # public API only (no internals named): bounded container histories, writer then reader.  Always run, so that a
+    # refactoring which renames the state variables (steps skipped above) is still checked.
+    from harness.C01 import ob_history
+    K = 4 if quick else 6
+    obs.append(Ob('history[public,K<=%d]' % K, ob_history, dict(K=K, encs=['utf-16', 'latin-1'], N=1),
+                  must_reach=['DiffXReader.iter_sections'], path_timeout=30,
+                  desc='container histories up to %d containers through the public writer and reader, each container '
+                       'declaring an encoding or not, symbolic probe preambles and non-ASCII metadata' % K,
+                  bounds={'containers': K, 'encodings': ['utf-16', 'latin-1']}))
     return obs
 
 
@@ -318,6 +327,12 @@ def replay(ob, label, w):
     from pydiffx.reader import DiffXReader
     from pydiffx.writer import DiffXWriter
     kind = w['kind']
+    if kind == 'history':
+        from harness.C01 import replay as c01_replay
+        r = c01_replay(ob, label, w)
+        if r.get('violated'):
+            r['signature'] = 'inherit:' + r.get('signature', '')
+        return r
     if kind == 'reader-names':
         name = w['data'].split(b'encoding=')[1].rstrip(b'\n').decode('ascii')
         t = w['container']
